@@ -422,7 +422,9 @@ class Representation(ObjectWithFields):
             origin_time = 0
             mod_segment = 1
             drift = 0
-            end = ref_duration_tc
+            # a track that is shorter than the timing reference must not
+            # wrap around to its first segment in a static timeline
+            end = min(ref_duration_tc, self.mediaDuration)
         rv = []
         dur = 0
         s_node = SegmentTimelineElement(mod_segment=mod_segment)
